@@ -229,8 +229,8 @@ func TestVerifC27Channels(t *testing.T) {
 	r := verifkit.Start(t, "C27", "channels")
 	defer r.Finish()
 	r.SetRule("one codec per cluster/channels request or result frame at the current codec version: reflection-filled values (edge-biased integers, hostile strings, nil/empty/short slices, optional meta pointer, zero and non-zero times, application errors from the sentinel pool) → round-trip equality (errors compared by message and errors.Is class; times by instant; nil≡empty slices); all strict prefixes; mutations (incl. the version and kind bytes); random bodies behind a valid header; huge lengths at every offset with allocation metering. Non-trivial = encoder accepted the value; distinct = (codec, phase, abstract value shape).")
-	r.Assume("a process-wide TotalAlloc delta around a batch of decode calls (serial phase) over-approximates the allocation of each call")
-	b := c27.Budget{Values: r.N(40, 1200), MutationsPer: r.N(8, 20), HostileValues: r.N(2, 16), RandomInputs: r.N(800, 24000), MaxTruncs: r.N(120, 1600), HostileOffs: r.N(400, 1600), Workers: 6}
+	r.Assume("the process-wide heap allocation counter (runtime/metrics /gc/heap/allocs:bytes) read around one decode call in the serial phase (no other harness goroutine allocating) over-approximates the allocation of that call")
+	b := c27.Budget{Values: r.N(40, 800), MutationsPer: r.N(8, 20), HostileValues: r.N(2, 12), RandomInputs: r.N(800, 24000), MaxTruncs: r.N(120, 1600), HostileOffs: r.N(400, 1600), Workers: 6}
 	c27.Drive(r, c27ChannelsCodecs(), b)
 
 	r.Note("not_asserted", []string{
